@@ -289,6 +289,58 @@ def run(repo, rep, tier):
     if r9.sites < 8:
         raise AnalysisError('only %d functions using PropertyList found'
                             % r9.sites)
+    # ---- R10: a fetched value is tested with `is None`, not by truthiness ---
+    r10 = rep.rule('C10.R10', 'values fetched with .get() are tested for '
+                   'presence with `is None` / membership, not by truthiness')
+    OBJ_CONTAINERS = {'qualifiers': 'CIMQualifier', 'properties': 'CIMProperty',
+                      'methods': 'CIMMethod', 'parameters': 'CIMParameter'}
+    always_true = {}
+    for attr, cn in OBJ_CONTAINERS.items():
+        c = repo.find_class(cn)
+        always_true[attr] = c is not None and \
+            c.find_method('__bool__') is None and \
+            c.find_method('__len__') is None
+    for path in list(MOCK_FILES) + ['pywbem/_cim_obj.py']:
+        for f in repo.module(path).all_funcs():
+            gets = {}
+            for n in walk_no_nested(f.node):
+                if isinstance(n, ast.Assign) and len(n.targets) == 1 and \
+                        isinstance(n.targets[0], ast.Name) and \
+                        isinstance(n.value, ast.Call) and \
+                        isinstance(n.value.func, ast.Attribute) and \
+                        n.value.func.attr == 'get' and \
+                        len(n.value.args) in (1, 2) and \
+                        not n.value.keywords:
+                    if len(n.value.args) == 2 and not (
+                            isinstance(n.value.args[1], ast.Constant) and
+                            n.value.args[1].value is None):
+                        continue
+                    recv = n.value.func.value
+                    if isinstance(recv, ast.Attribute) and \
+                            always_true.get(recv.attr):
+                        continue    # items are objects that are never falsy
+                    gets[n.targets[0].id] = n.value
+            if not gets:
+                continue
+            r10.sites += 1
+            r10.functions.add(f.fq)
+            bad = truthiness_uses(f, lambda n: isinstance(n, ast.Name) and
+                                  n.id in gets)
+            r10.ob(not bad, f.qualname, {'fetched': sorted(gets)})
+            for u in bad[:1]:
+                rep.finding(r10, f.qualname, '%s = %s' % (
+                    u.id, norm(gets[u.id], 60)), 'truthiness-of-value', path,
+                    u.lineno,
+                    '%s comes from %s and is tested by truthiness: a value '
+                    'that is present but falsy (0, False, the empty string, '
+                    'an empty array) is handled as missing - e.g. a key '
+                    'property with value 0 is dropped from the instance '
+                    'path, so CreateInstance of a valid instance fails and '
+                    'the repository disagrees with the sequential history'
+                    % (u.id, norm(gets[u.id], 60)))
+    if r10.sites < 3:
+        raise AnalysisError('C10.R10: only %d functions fetch values with '
+                            '.get()' % r10.sites)
     # ---- R3 ---------------------------------------------------------------
     passthrough = {}      # function name -> param index of `copy`
     for path in MOCK_FILES:
